@@ -35,6 +35,10 @@ var reDepth = regexp.MustCompile(`<<"TRACE-DEPTH", (-?\d+), (\d+)>>`)
 var reKF = regexp.MustCompile(`<<"KF-HIT", \{([^}]*)\}, (\d+)>>`)
 var reInv = regexp.MustCompile(`Invariant (\S+) is violated`)
 
+// a failed Assert inside an action (KlevConc / KlevConcK judge results at linearization points that way): the tag is
+// the first element of the tuple TLC prints
+var reAssert = regexp.MustCompile(`first argument of Assert evaluated to FALSE; the second argument was:\s*<<\s*"([^"]+)"`)
+
 // runTLC runs TLC on module/cfg inside specDir. env adds environment variables (TRACE=...).
 func runTLC(module, cfg string, workers int, serialGC bool, extra []string, env []string, timeout time.Duration, scratch string) TLCRun {
 	return runTLCOpts(module, cfg, workers, serialGC, extra, env, timeout, scratch, nil)
@@ -88,6 +92,8 @@ func runTLCOpts(module, cfg string, workers int, serialGC bool, extra []string, 
 		}
 	}
 	if m := reInv.FindStringSubmatch(r.Out); m != nil {
+		r.InvViol = m[1]
+	} else if m := reAssert.FindStringSubmatch(r.Out); m != nil {
 		r.InvViol = m[1]
 	}
 	finished := strings.Contains(r.Out, "Model checking completed") || strings.Contains(r.Out, "Finished in") || strings.Contains(r.Out, "Finished computing")
